@@ -59,6 +59,12 @@ class shapesys_builder:
             else [0.0] * self.config.channel_nbins[channel]
         )
         moddata = self.collect(thismod, nom)
+        if len(nom) != len(moddata['uncrt']):
+            raise InvalidModifier(
+                f"The '{sample}' sample shapesys modifier '{thismod['name']}' in channel '{channel}' has data shape inconsistent with the sample.\n"
+                + f"{sample} has 'data' of length {len(nom)} but {thismod['name']}"
+                + f" has 'data' of length {len(moddata['uncrt'])}."
+            )
         self.builder_data[key][sample]['data']['mask'].append(moddata['mask'])
         self.builder_data[key][sample]['data']['uncrt'].append(moddata['uncrt'])
         self.builder_data[key][sample]['data']['nom_data'].append(moddata['nom_data'])
